@@ -114,6 +114,9 @@ def run_for(pid, root=None, jobs=None):
     res = list(res) + generic.run(pid, root=root)
     from selftest import filerefs
     res = list(res) + filerefs.run(pid, root=root)
+    # defects planted inside refactored shapes (read in place by sa/specialise.py)
+    from selftest import mutated_refactors
+    res = list(res) + mutated_refactors.run(pid, root=root)
     # the rules that evaluate tdda's functions rest on the interpreter agreeing with CPython: checked on the machinery's own snippets
     from selftest import conformance
     res = list(res) + conformance.run(root=root)
